@@ -69,6 +69,8 @@ def build():
     W['u'] = Comp('u', 1)
     W['u2'] = Comp('u', 2)
     W['v'] = FalsyComp('v', 3)
+    W['w'] = Comp('w', 9)
+    W['w'].__component_name__ = 'n'       # a component that knows its own name
     W['h'] = UComp('h', 4)
     W['h2'] = UComp('h', 5)
     W['f'] = Comp('f', 6)
@@ -80,7 +82,7 @@ def build():
 
 def all_ops(cfg):
     ops = []
-    comps = cfg.get('comps', ('u', 'u2', 'v', 'h', 'h2'))
+    comps = cfg.get('comps', ('u', 'u2', 'v', 'h', 'h2', 'w'))
     for comp in comps:
         for p in ('P0', 'P1'):
             for n in ('', 'n'):
@@ -137,6 +139,9 @@ def step(W, M, op):
     elif t == 'regU':
         comp, p, n = W[op[1]], W[op[2]], op[3]
         c.registerUtility(comp, p, n, info='')
+        if n == '':
+            # registered without a name: the component's own name, if it has one
+            n = getattr(comp, '__component_name__', '')
         old = M.utils.get((op[2], n))
         if old is not None and old == comp:
             exp_events = []
